@@ -102,12 +102,15 @@ def _norm_ident(x) -> str:
 
 
 class Sem:
-    def __init__(self, A, tables: dict, schema: dict, nulls_last_default: bool = True, bool_is_int: bool = False):
+    def __init__(self, A, tables: dict, schema: dict, nulls_last_default: bool = True, bool_is_int: bool = False,
+                 null_ordering: str | None = None):
         """tables: name -> Rel-like list of (present, {col: V}); schema: name -> [(col, kind)]"""
         self.A = A
         self.tables = tables
         self.schema = schema
         self.nulls_last_default = nulls_last_default
+        # None -> use nulls_last_default; "small": NULLs sort as the smallest value (first ASC, last DESC); "large": the opposite
+        self.null_ordering = null_ordering
         self.bool_is_int = bool_is_int
         self.assumptions = []   # terms assumed true (tie-free ORDER BY keys, scalar sub-queries return <= 1 row)
         self.features = set()
@@ -919,7 +922,12 @@ class Sem:
                 desc = bool(o.args.get("desc"))
                 nf = o.args.get("nulls_first")
                 if nf is None:
-                    nulls_first = not self.nulls_last_default
+                    if self.null_ordering == "small":
+                        nulls_first = not desc
+                    elif self.null_ordering == "large":
+                        nulls_first = desc
+                    else:
+                        nulls_first = not self.nulls_last_default
                 else:
                     nulls_first = bool(nf)
                 if o.args.get("with_fill"):
